@@ -291,6 +291,7 @@ func c07(c *Ctx) {
 	}
 	var live []snap
 	var script []string
+	tainted := map[string]bool{}
 	emit := func(op, res string) {
 		d, _ := w.observe()
 		c.Op(op, res+" | "+d)
@@ -300,6 +301,7 @@ func c07(c *Ctx) {
 		}
 	}
 	reset := func() {
+		tainted = map[string]bool{}
 		newWorld()
 		live = nil
 		script = nil
@@ -342,17 +344,28 @@ func c07(c *Ctx) {
 				reset()
 				continue
 			}
+			for _, o := range s.ops {
+				if strings.HasPrefix(o, "w ") && strings.HasSuffix(o, " sui") {
+					tainted[strings.Fields(o)[1]] = true
+				}
+			}
 			_, now := w.observe()
 			for key, want := range s.obs {
 				if now[key] != want {
 					field := key[strings.Index(key, ".")+1:]
-					// classify: does the reverted span contain a SetSuicide on this very account?
+					// classify: does the reverted span contain a SetSuicide on this very account — or was a
+					// SetSuicide on it already reverted earlier in this script (the account then stays damaged:
+					// code object dropped, storage cache reset), so that later snapshots record the damage?
 					acct := key[1:strings.Index(key, ".")]
+					sui := tainted[acct]
 					for _, o := range s.ops {
 						if o == "w "+acct+" sui" {
-							field += "/after-suicide-undo"
+							sui = true
 							break
 						}
+					}
+					if sui {
+						field += "/after-suicide-undo"
 					}
 					c.Fail("c07/revert-mismatch/"+field, fmt.Sprintf("after RevertToSnapshot(%d): %s = %s, at snapshot it was %s; ops since snapshot: %v", s.id, key, now[key], want, s.ops),
 						map[string]interface{}{"script": append(append([]string{}, script...), fmt.Sprintf("rev %d", s.id))})
